@@ -55,7 +55,9 @@ def relClose (a b : Float) : Bool :=
 def acceptHolds (t u : Float) (s : Stk Float) (implOut : Sexp) : Bool × String :=
   match s with
   | [cand] :: [cur] :: rest =>
-    if !(t > 0.0 && t.isFinite && cand.obj.isFinite && cur.obj.isFinite) then (true, "-") else
+    -- +inf is a legal objective value (infeasible solution); NaN and -inf are not (C09)
+    let legal := fun (o : Float) => o.isFinite || (o.isInf && o > 0.0)
+    if !(t > 0.0 && t.isFinite && legal cand.obj && legal cur.obj) then (true, "-") else
     -- the three admissible outputs: candidate survives / current survives
     let outAcc := fun used : Nat => Sexp.list [.atom "ok", stackS ([cand] :: rest), .list [.atom "t", Sexp.ofFloat t], .list [.atom "used", Sexp.ofNat used]]
     let outRej := fun used : Nat => Sexp.list [.atom "ok", stackS ([cur] :: rest), .list [.atom "t", Sexp.ofFloat t], .list [.atom "used", Sexp.ofNat used]]
